@@ -70,8 +70,8 @@ impl Scenario for C17Twin {
     }
     fn runs(&self, tier: Tier) -> u64 {
         match tier {
-            Tier::Quick => 10_000,
-            Tier::Thorough => 600_000,
+            Tier::Quick => 40_000,
+            Tier::Thorough => 2_500_000,
         }
     }
     fn describe(&self) -> &'static str {
